@@ -204,6 +204,81 @@ func c05RationalsNear(n *big.Int, f c05Operand) []c05Operand {
 	return out
 }
 
+// c05WidthParts are positive integers of every width class a fixed-width fast path may switch on:
+// two per class, mostly primes (so that ratios of them stay unreduced) and top heavy (so that
+// products and sums of products of two of them cross the next power of two).
+//   small | 15/16 bits | 31 bits | 32 bits | 33/34 bits | 53/54 bits | 62..65 bits
+func c05WidthParts() [][]*big.Int {
+	cls := [][]string{
+		{"3", "7"},
+		{"32749", "65537"},
+		{"2147483629", "1073741827"},
+		{"4294967291", "3500000003"},
+		{"4294967311", "8589934583"},
+		{"9007199254740881", "18014398509481951"},
+		{"9223372036854775783", "18446744073709551629"},
+	}
+	out := make([][]*big.Int, len(cls))
+	for i, c := range cls {
+		for _, v := range c {
+			out[i] = append(out[i], c05Int(v).rat.Num())
+		}
+	}
+	return out
+}
+
+// c05RatioPool: for every ordered pair of width classes (numerator class, denominator class) two
+// ratios, each with both signs. 7 classes -> 49 class pairs -> 196 ratios.
+func c05RatioPool() []c05Operand {
+	parts := c05WidthParts()
+	var out []c05Operand
+	for _, nc := range parts {
+		for _, dc := range parts {
+			for _, ij := range [][2]int{{0, 1}, {1, 0}} {
+				n, d := nc[ij[0]], dc[ij[1]]
+				out = append(out, c05Ratio(n, d), c05Ratio(new(big.Int).Neg(n), d))
+			}
+		}
+	}
+	return out
+}
+
+// c05WidthInts: the width-class parts as integers, both signs.
+func c05WidthInts() []c05Operand {
+	var out []c05Operand
+	for _, c := range c05WidthParts() {
+		for _, v := range c {
+			out = append(out, c05Big(v), c05Big(new(big.Int).Neg(v)))
+		}
+	}
+	return out
+}
+
+// c05FloatsNearRat returns the double, single and long floats nearest to the rational r and the
+// neighbours of the double and the single.
+func c05FloatsNearRat(r *big.Rat) []c05Operand {
+	var out []c05Operand
+	if f64, _ := r.Float64(); !math.IsInf(f64, 0) {
+		for _, x := range []float64{f64, math.Nextafter(f64, math.Inf(1)), math.Nextafter(f64, math.Inf(-1))} {
+			if !math.IsInf(x, 0) {
+				out = append(out, c05Double(x))
+			}
+		}
+	}
+	if f32, _ := r.Float32(); !math.IsInf(float64(f32), 0) {
+		for _, x := range []float32{f32, math.Nextafter32(f32, float32(math.Inf(1))), math.Nextafter32(f32, float32(math.Inf(-1)))} {
+			if !math.IsInf(float64(x), 0) {
+				out = append(out, c05Single(x))
+			}
+		}
+	}
+	for _, prec := range []uint{64, 113} {
+		lf, _ := new(big.Float).SetPrec(prec).SetRat(r).Rat(nil)
+		out = append(out, c05Operand{rat: lf, kind: "l", prec: prec})
+	}
+	return out
+}
+
 // c05FloatAnchors are the integers from which the float-coupled sweep derives its floats: the
 // boundary grid plus integers around the precision limits of the float formats (2^24, 2^53, 2^64)
 // that are NOT exactly representable, and a few ordinary ones; each with both signs.
@@ -729,7 +804,8 @@ func runC05(c *lib.Ctx) {
 		c05Int("1"), c05Int("2"), c05Int("5"), c05Int("62"), c05Int("63"), c05Int("64"), c05Int("65"), c05Int("130")}
 	ratios := []c05Operand{}
 	for _, s := range [][2]string{{"1", "2"}, {"-1", "2"}, {"3", "2"}, {"-3", "2"}, {"5", "2"}, {"-5", "2"}, {"7", "2"}, {"1", "3"}, {"-7", "3"},
-		{"9223372036854775807", "2"}, {"-9223372036854775809", "2"}, {"1", "9223372036854775808"}, {"18446744073709551617", "3"}} {
+		{"9223372036854775807", "2"}, {"-9223372036854775809", "2"}, {"1", "9223372036854775808"}, {"18446744073709551617", "3"},
+		{"3", "18446744073709551617"}, {"-1", "18446744073709551617"}, {"4294967297", "4294967295"}, {"9223372036854775809", "9223372036854775807"}} {
 		ratios = append(ratios, c05RatioS(s[0], s[1]))
 	}
 	floats := []c05Operand{}
@@ -832,6 +908,62 @@ func runC05(c *lib.Ctx) {
 			}
 		}
 	}
+	// --- single-cause sweep, width-class ratio cells: ratios whose numerator and denominator come
+	// from every width class (small, 16, 31, 32, 33, 53, 63/64 bits; top heavy), in all ordered
+	// pairs with each other and with the width-class integers, for every two-argument operator on
+	// rationals (cross products and sums of products are where fixed-width fast paths break);
+	// for the comparison family additionally against the floats derived from each ratio
+	ratioPool, widthInts := c05RatioPool(), c05WidthInts()
+	nRatioCells := 0
+	for _, op := range c05Ops {
+		two := op.maxArg == -1 || op.maxArg >= 2
+		switch op.domain {
+		case "rat", "place", "go", "cmp", "cmp1":
+		default:
+			continue
+		}
+		if op.minArg <= 1 {
+			for _, a := range ratioPool {
+				cases = append(cases, c05Case{op, []c05Operand{a}, true})
+				nRatioCells++
+			}
+		}
+		if !two {
+			continue
+		}
+		for _, a := range ratioPool {
+			for _, b := range ratioPool {
+				cases = append(cases, c05Case{op, []c05Operand{a, b}, true})
+				nRatioCells++
+			}
+			for _, b := range widthInts {
+				cases = append(cases, c05Case{op, []c05Operand{a, b}, true}, c05Case{op, []c05Operand{b, a}, true})
+				nRatioCells += 2
+			}
+		}
+		if op.isCmp() && op.maxArg == -1 {
+			tiny := new(big.Rat).SetFrac(big.NewInt(1), new(big.Int).Lsh(big.NewInt(1), 120))
+			for _, a := range ratioPool {
+				for _, f := range c05FloatsNearRat(a.rat) {
+					for _, r := range []c05Operand{a, {rat: new(big.Rat).Set(f.rat), kind: "q"},
+						{rat: new(big.Rat).Add(f.rat, tiny), kind: "q"}, {rat: new(big.Rat).Sub(f.rat, tiny), kind: "q"}} {
+						cases = append(cases, c05Case{op, []c05Operand{r, f}, true}, c05Case{op, []c05Operand{f, r}, true})
+						nRatioCells += 2
+					}
+				}
+			}
+		}
+	}
+	for _, op := range c05Ops {
+		if op.name == "expt" {
+			for i := 0; i < len(ratioPool); i += 7 {
+				for _, e := range small {
+					cases = append(cases, c05Case{op, []c05Operand{ratioPool[i], e}, true})
+					nRatioCells++
+				}
+			}
+		}
+	}
 	nSweep := len(cases)
 
 	// --- composite, seed independent: all triples over a small pool for the n-ary operators
@@ -889,12 +1021,24 @@ func runC05(c *lib.Ctx) {
 			return c05Big(n.Abs(n))
 		}
 		if c.Rng.Chance(40) {
-			d := c.Rng.BigBits([]int{4, 31, 64, 100}[c.Rng.Intn(4)])
-			d.Abs(d)
+			// numerator and denominator drawn per width class, half of them top heavy (2^k - small)
+			widths := []int{4, 15, 16, 17, 31, 32, 33, 53, 54, 62, 63, 64, 65, 100, 200}
+			part := func() *big.Int {
+				k := widths[c.Rng.Intn(len(widths))]
+				if c.Rng.Bool() {
+					v := new(big.Int).Lsh(big.NewInt(1), uint(k))
+					return v.Sub(v, big.NewInt(int64(1+c.Rng.Intn(300))))
+				}
+				return new(big.Int).Abs(c.Rng.BigBits(k))
+			}
+			num, d := part(), part()
 			if d.Sign() == 0 {
 				d.SetInt64(7)
 			}
-			return c05Ratio(n, d)
+			if c.Rng.Bool() {
+				num.Neg(num)
+			}
+			return c05Ratio(num, d)
 		}
 		if c.Rng.Chance(15) {
 			return grid[c.Rng.Intn(len(grid))]
@@ -1004,7 +1148,13 @@ func runC05(c *lib.Ctx) {
 				"relies_on": []string{"SlipVerif.Theorems.C05", "SlipVerif.Theorems.C05Impl"}})
 		}
 	}
-	runBatch(cases) // sweep + triples
+	for lo := 0; lo < len(cases); lo += 200000 { // sweep + triples
+		hi := lo + 200000
+		if hi > len(cases) {
+			hi = len(cases)
+		}
+		runBatch(cases[lo:hi])
+	}
 	cases = nil
 
 	// --- composite, seeded: random cases in batches
@@ -1043,6 +1193,7 @@ func runC05(c *lib.Ctx) {
 	c.Ev.Coverage["agreements"] = agree
 	c.Ev.Coverage["sweep_cases"] = nSweep
 	c.Ev.Coverage["sweep_float_coupled_cases"] = nCoupled
+	c.Ev.Coverage["sweep_width_class_ratio_cases"] = nRatioCells
 	c.Ev.Coverage["triple_cases"] = nTriples
 	c.Ev.Coverage["random_cases"] = nRandom
 	c.Ev.Coverage["composite_cases_avoided_listed_construct"] = avoided
